@@ -9,7 +9,7 @@ TEXT = {
  "C02": ("Lean theorem C02_find over every trace in which each worker scans its chunks in order and the evaluated prefix contains the least found position: result = least matching source position; tie by controlled schedules (late worker holds chunk 0).", "§6 C02"),
  "C03": ("Lean theorems C03_reduce (associative+commutative op, any tiling, any thread order) and C03_select (by-key selections pick an extremal survivor).", "§6 C03"),
  "C04": ("Lean theorem C04_count / C04_for_each for every tiling and thread order, chunk-1 and chunked paths incl. the nested loop of filtermap_fil_cnt.", "§6 C04"),
- "C05": ("Lean theorems on the logged stream algebra: event multiset of every chain = sequential (32 site lemmas, induction over chains), C05_term_events for the terminal closures, C05_kernel_step for the kernels' per-element work, C05_mutex / C05_yield_once on the transcribed ticket protocol. Tie: the model's (stage,arg) invocation multiset is compared with the recorded real invocations on every case (digest), plus the std oracle.", "§6 C05"),
+ "C05": ("Lean theorems on the logged stream algebra: event multiset of every chain = sequential (32 site lemmas, induction over chains), C05_term_events for the terminal closures, C05_kernel_step for the kernels' per-element work, C05_mutex / C05_yield_once / C05_source_complete on the transcribed ticket protocol (mutual exclusion, each element handed out once at its true index, and — without skip_to_end — all of them). Tie: the model's (stage,arg) invocation multiset is compared with the recorded real invocations on every case (digest), plus the std oracle.", "§6 C05"),
  "C06": ("Lean theorem C06_collect_into per branch of the three ParCollectIntoCore impls: result = pre ++ sequential result.", "§6 C06"),
  "C07": ("Lean theorem C07_collect_x: fragments appended in spawn order are a permutation of the sequential result for every tiling.", "§6 C07"),
  "C08": ("Lean theorems C08_max_threads, C08_spawn_bound, C08_at_most_n_workers: under Max(n) at most n workers for every has_more stream and every lag>=1; sequential entry points ignore the runner. Tie: do_spawn / calc_num_threads exactly (L0) and real thread counts from worker hooks. One known finding (reduce operator also runs on the caller).", "§6 C08"),
